@@ -8,13 +8,13 @@ from .common import evaluate, history_problem
 ID = 'C01'
 LEVEL = 'exploration'
 TIERS = {
-    'quick': {'cases': 576 + 84 + 1400, 'wall': 85, 'chunk': 10},
-    'thorough': {'cases': 576 + 84 + 40000, 'wall': 1200, 'chunk': 20},
+    'quick': {'cases': 576 + 204 + 1400, 'wall': 85, 'chunk': 10},
+    'thorough': {'cases': 576 + 204 + 40000, 'wall': 1200, 'chunk': 20},
 }
 RULE = ('cases 0..575: the ELEMENT-STORE MATRIX (seed independent): element type x storage class {literal, stack literal, '
         'dynamic, global literal, global dynamic, parameter} x length {1,8,9,17} x right-hand side {literal, variable} x '
         'index {literal, variable, expression}; every second element and the last two are stored to, some compound-'
-        'assigned, then all are read back. Cases 576..659: the ASSIGNMENT MATRIX - `v = E(v)` and `v += E(v)` for a global, '
+        'assigned, then all are read back. Cases 576..779: the ASSIGNMENT MATRIX - `v = E(v)`, `v += E(v)`, `int y = E(v)` and `f(E(v))` for a global, '
         'local and parameter variable, E reading v directly, through a function that looks at the global, inside array '
         'literals, under .length, indexing, casts and unary minus (a variable used as its own scratch register shows). '
         'Further cases: Random(f"{seed}:C01:{i}") picks a swarm configuration (feature subset, sizes, word '
